@@ -14,33 +14,33 @@ pub struct Out {
 
 impl Out {
     /// is the next unit of a deterministic enumeration ours?
-    fn mine(&mut self) -> bool {
+    pub fn mine(&mut self) -> bool {
         let m = self.counter % self.nchunks == self.chunk;
         self.counter += 1;
         m
     }
-    fn op(&mut self, s: String) {
+    pub fn op(&mut self, s: String) {
         self.lines.push(s);
     }
-    fn reset(&mut self) {
+    pub fn reset(&mut self) {
         self.op("reset".to_owned());
     }
-    fn new_router(&mut self, r: usize, keys: &[&str]) {
+    pub fn new_router(&mut self, r: usize, keys: &[&str]) {
         self.op(format!("new {r}"));
         for k in keys {
             self.op(format!("constraint {r} {k}"));
         }
     }
-    fn insert(&mut self, r: usize, t: &str, d: u32) {
+    pub fn insert(&mut self, r: usize, t: &str, d: u32) {
         self.op(format!("insert {r} {} {d}", hex(t.as_bytes())));
     }
-    fn delete(&mut self, r: usize, t: &str) {
+    pub fn delete(&mut self, r: usize, t: &str) {
         self.op(format!("delete {r} {}", hex(t.as_bytes())));
     }
-    fn search(&mut self, r: usize, p: &str) {
+    pub fn search(&mut self, r: usize, p: &str) {
         self.op(format!("search {r} {}", hex(p.as_bytes())));
     }
-    fn display(&mut self, r: usize) {
+    pub fn display(&mut self, r: usize) {
         self.op(format!("display {r}"));
     }
 }
@@ -57,19 +57,19 @@ fn shadow() -> Router<u32> {
 
 /// expansions (as part lists) of a template, through the hook when available
 #[cfg(feature = "hook")]
-fn parts_of(t: &str) -> Vec<Vec<(char, Vec<u8>)>> {
+pub fn parts_of(t: &str) -> Vec<Vec<(char, Vec<u8>)>> {
     match wayfind::verif::parse_dump(t.as_bytes()) {
         Ok(es) => es.into_iter().map(|(_, ps)| ps.into_iter().map(|(k, a, _)| (k, a)).collect()).collect(),
         Err(_) => vec![],
     }
 }
 #[cfg(not(feature = "hook"))]
-fn parts_of(_t: &str) -> Vec<Vec<(char, Vec<u8>)>> {
+pub fn parts_of(_t: &str) -> Vec<Vec<(char, Vec<u8>)>> {
     vec![]
 }
 
 const LITS: &[&str] = &["/", "a", "ab", "abc", "b", ".", "-", "é", "ée", "日", "/x", "x.y", "\\{", "\\}", "\\(", "\\)", "\\\\", "/a/", "//", "m", "/m/", "/a", "/b"];
-const NAMES: &[&str] = &["a", "b", "id", "w", "v"];
+const NAMES: &[&str] = &["a", "b", "id", "id2", "w", "v", "a-b"];
 const CONS: &[&str] = &["alpha", "nota", "even", "u8", "hasslash", "bool"];
 
 /// structured, mostly valid template from tiny colliding pools
@@ -345,7 +345,7 @@ pub const SHAPES: &[&str] = &[
 
 const SCOPE_ALPHA: &[&str] = &["/", "a", "b", ".", "é", "-"];
 
-fn all_strings(alpha: &[&str], max_len: usize) -> Vec<String> {
+pub fn all_strings(alpha: &[&str], max_len: usize) -> Vec<String> {
     let mut all = vec![String::new()];
     let mut frontier = vec![String::new()];
     for _ in 0..max_len {
